@@ -512,6 +512,49 @@ func rulesC16(c *Ctx) {
 			c.Check(okPair, "setSchema:schema-cache-entry-consistent", ss, call, "setBySchema stores, under a schema pointer, the result of resolving that same schema")
 		}
 		c.Pin("cache stores in setSchema", len(ss.CallsIn(ss.Body, setT, false))+len(ss.CallsIn(ss.Body, setS, false)), 2)
+		// … and only after that resolution succeeded: a store reachable with a failed Resolve would cache a nil resolved
+		// schema, which applySchema treats as "no schema" (nothing is validated on the next registration)
+		for _, call := range append(ss.CallsIn(ss.Body, setT, false), ss.CallsIn(ss.Body, setS, false)...) {
+			okOK := false
+			// the Resolve call that produced the stored value, and its error variable
+			val := ss.ObjOf(call.Args[len(call.Args)-1])
+			for _, w := range ss.writesToVar(ss.Body, val, false) {
+				as, isAs := w.(*ast.AssignStmt)
+				if !isAs || len(as.Lhs) != 2 || len(as.Rhs) != 1 {
+					continue
+				}
+				errV := ss.ObjOf(as.Lhs[1])
+				rv, cv := sg.VertexOf(w), sg.VertexOf(call)
+				if !sg.Dominates(rv, cv) {
+					continue
+				}
+				// the store is on the err == nil side of the test of that error
+				if hasAtom(sg.GuardsAt(cv), func(a Atom) bool { return AtomSaysNil(a, true, func(e ast.Expr) bool { return ss.ObjOf(e) == errV }) }) {
+					okOK = true
+				}
+			}
+			c.Check(okOK, "setSchema:cache-store-after-successful-resolve:"+ss.Callee(call).Name(), ss, call, "the cache is written only on the path where Resolve returned no error")
+		}
+		// the zero value for pointer types is fixed before any return: a return ahead of the Kind() == Pointer block (e.g. a
+		// cache fast path) hands toolForErr a nil zero, and a handler returning a nil *Out then fails output validation
+		zres := ss.NamedResult(0)
+		okZero := zres != nil
+		nz := 0
+		for _, w := range ss.writesToVar(ss.Body, zres, false) {
+			nz++
+			gc := sg.guardingConds(sg.VertexOf(w))
+			if len(gc) == 0 {
+				continue // unconditional assignment: nothing to order
+			}
+			decide := gc[len(gc)-1] // the innermost test that decides whether the zero value is set
+			for _, r := range ss.Returns() {
+				if !sg.Dominates(decide, sg.VertexOf(r)) {
+					okZero = false
+				}
+			}
+		}
+		okZero = okZero && nz >= 1
+		c.Check(okZero, "setSchema:zero-before-any-return", ss, nil, "the pointer-indirection test (which also fixes the zero value handed back to toolForErr) dominates every return of setSchema")
 		// the cache accessors: reader and writer of each map agree
 		byType, bySchema := c.Field(pM, "SchemaCache", "byType"), c.Field(pM, "SchemaCache", "bySchema")
 		mapOf := func(f *Func, method string) *types.Var {
